@@ -1266,6 +1266,54 @@ pub fn c17(ix: &Index) -> Vec<Viol> {
     if names_ambiguous(h) || h.limit_hit {
         return out;
     }
+    // What a collector scope captured at its top level (events and properties recorded while none
+    // of its local spans was open) belongs to every span the set is pushed to. Demanded only where
+    // nothing else can explain an absence: the push and the parent's finish are issued by the same
+    // thread in that order, the parent has one sampled parent item, is delivered exactly once, and
+    // its root neither finished before it nor was cancelled.
+    for (ai, a) in h.atts.iter().enumerate() {
+        let ARef::ScopeRoot(sc) = a.target else { continue };
+        if !matches!(h.scopes[sc].kind, ScopeKind::Collector) || !matches!(a.route, Route::Local) || h.overflow_atts.contains(&ai) {
+            continue;
+        }
+        let Some(si) = h.scopes[sc].set else { continue };
+        for p in h.pushes.iter().filter(|p| p.set == si) {
+            let sp = &h.spans[p.span];
+            if sp.noop || sp.items.len() != 1 || !sp.items[0].sampled {
+                continue;
+            }
+            let Some(ft) = sp.finish_t else { continue };
+            if sp.finish_vt != Some(p.vt) || p.t.1 >= ft.0 {
+                continue;
+            }
+            let es: Vec<&Exp> = ix.exps.iter().filter(|e| e.src == Src::Span(p.span)).collect();
+            if es.len() != 1 {
+                continue;
+            }
+            let e = es[0];
+            let root = &h.spans[e.unit];
+            let before_root = e.unit == p.span || root.finish_t.map_or(true, |rf| ft.1 < rf.0);
+            if !before_root || ix.root_cancelled(e.unit) || !root.cancel_t.is_empty() || !sp.cancel_t.is_empty() {
+                continue;
+            }
+            let recs: Vec<&SpanRecord> = ix.by_name.get(sp.name.as_str()).map(|rs| rs.iter().filter(|r| r.1.trace_id.0 == e.trace).map(|r| r.1).collect()).unwrap_or_default();
+            if recs.len() != 1 {
+                continue;
+            }
+            let r = recs[0];
+            let present = match &a.kind {
+                AKind::Event { name, .. } => r.events.iter().any(|ev| ev.name.as_ref() == name.as_str()),
+                AKind::Props(ps) => ps.iter().all(|(k, _)| r.properties.iter().any(|(rk, _)| rk.as_ref() == k.as_str())),
+            };
+            if !present {
+                out.push(v(
+                    "C17",
+                    "pushed-top-level-entry-lost",
+                    format!("an entry recorded at the top level of a LocalCollector scope on vt{} at t={:?} is missing from {:?}, to which the set was pushed at t={:?} before it finished at t={:?} on the same thread", a.vt, a.t, sp.name, p.t, ft),
+                ));
+            }
+        }
+    }
     for (si, set) in h.sets.iter().enumerate() {
         let locals: Vec<usize> = (0..h.locals.len()).filter(|l| h.locals[*l].scope == set.scope).collect();
         if locals.is_empty() {
